@@ -167,3 +167,54 @@ package expand
 //@ loop 2 invariant [within-range] step >= 1 && ite(upward, from <= n && n <= to, to <= n && n <= from)
 //@ loop 2 invariant [pad-covers-endpoints] width == 0 || (width >= len(fromLit) && width >= len(toLit))
 //@ loop 2 decreases ite(upward, uint64(to) - uint64(n), uint64(n) - uint64(to))
+
+// ---- C20: assignment operators: same value and same variable side effects as the plain operator,
+// old value read before the right-hand side is evaluated ----
+// The contracts of envGet, envSet, atoi and Arithm below only record, in ghost variables declared in
+// /verif/trusted/arith.spec, when they were called and with what; they are definitions of the ghost
+// instrumentation, not assumptions about behaviour (Arithm and envSet may change anything: modifies heap).
+
+//@ func Config.envGet
+//@ trusted "ghost instrumentation: records the call"
+//@ ensures arClock == old(arClock) + 1 && arGetTime == arClock && arGetName == name && arGetStr == result
+//@ modifies heap, arClock, arGetTime, arGetName, arGetStr
+
+//@ func Config.envSet
+//@ trusted "ghost instrumentation: records the call"
+//@ ensures arClock == old(arClock) + 1 && arSetTime == arClock && arSetName == name && arSetStr == value
+//@ modifies heap, arClock, arSetTime, arSetName, arSetStr
+
+//@ func Arithm
+//@ trusted "ghost instrumentation: records the call"
+//@ returns (r, err)
+//@ ensures arClock == old(arClock) + 1 && arRhsTime == arClock && arRhs == r
+//@ modifies heap, arClock, arRhsTime, arRhs
+
+//@ func atoi
+//@ trusted "names the result: atoi is a function of its argument"
+//@ ensures result == atoiSpec(s)
+//@ pure
+
+//@ spec assgnOld() int64 = atoiSpec(arGetStr)
+//@ spec assgnArg() int64 = int64(arRhs)
+
+//@ func Config.assgnArit
+//@ props C20
+//@ mode bv
+//@ nosafety
+//@ returns (r, err)
+//@ assume [ghost-clock-small] 0 <= arClock && arClock < 1000000000
+//@ ensures [reads-old-value-first] implies(err == nil, arGetTime < arRhsTime && arRhsTime < arSetTime)
+//@ ensures [same-variable] implies(err == nil, arGetName == arSetName)
+//@ ensures [stored-is-result] implies(err == nil, exists(v, int64, arSetStr == fmtIntSpec(v, 10) && r == int(v)))
+//@ ensures [assgn] implies(err == nil && old(b.Op) == syntax.Assgn, r == int(assgnArg()))
+//@ ensures [add] implies(err == nil && old(b.Op) == syntax.AddAssgn, r == int(assgnOld() + assgnArg()))
+//@ ensures [sub] implies(err == nil && old(b.Op) == syntax.SubAssgn, r == int(assgnOld() - assgnArg()))
+//@ ensures [mul] implies(err == nil && old(b.Op) == syntax.MulAssgn, r == int(assgnOld() * assgnArg()))
+//@ ensures [quo] implies(err == nil && old(b.Op) == syntax.QuoAssgn, assgnArg() != 0 && r == int(assgnOld() / assgnArg()))
+//@ ensures [rem] implies(err == nil && old(b.Op) == syntax.RemAssgn, assgnArg() != 0 && r == int(assgnOld() % assgnArg()))
+//@ ensures [and] implies(err == nil && old(b.Op) == syntax.AndAssgn, r == int(assgnOld() & assgnArg()))
+//@ ensures [or] implies(err == nil && old(b.Op) == syntax.OrAssgn, r == int(assgnOld() | assgnArg()))
+//@ ensures [xor] implies(err == nil && old(b.Op) == syntax.XorAssgn, r == int(assgnOld() ^ assgnArg()))
+//@ ensures [shl] implies(err == nil && old(b.Op) == syntax.ShlAssgn && 0 <= assgnArg() && assgnArg() <= 63, r == int(assgnOld() << uint(assgnArg())))
+//@ ensures [shr] implies(err == nil && old(b.Op) == syntax.ShrAssgn && 0 <= assgnArg() && assgnArg() <= 63, r == int(assgnOld() >> uint(assgnArg())))
